@@ -20,6 +20,17 @@ CLAIMED = {
     },
 }
 
+CLAIMED["C08"] = {
+    "text": "Proof: usage_percent, calculate_avail_vmem, virtual_memory and swap_memory are verified against the "
+            "documented formulas for every /proc/meminfo (any subset of optional keys, any magnitudes), vmstat and "
+            "zoneinfo content allowed by the stated kernel grammars: all ~6.6k paths of virtual_memory, loop invariants "
+            "for the three file-parsing loops, warnings, the [0,total] clamp and the percent range.",
+    "note": "meminfo/vmstat/zoneinfo line grammars are assumed (kernel contract); bytes.split/strip/int() library "
+            "models; floats as reals; PAGESIZE fixed at 4096; callee contracts applied modularly (calculate_avail_vmem's "
+            "value is an arbitrary int for virtual_memory).",
+    "ref": "DESIGN.md section 5 (C08)",
+}
+
 NOT_YET = "check not built yet (work in progress, see DESIGN.md section 7)"
 NA = {}
 
